@@ -18,6 +18,7 @@ NPROC = os.cpu_count() or 16
 GUARD = "PARMCB_VERIF"
 
 BASE_FLAGS = ["-std=c++14", "-O2", "-DNDEBUG", "-w", "-D" + GUARD]
+CXX17_FLAGS = ["-std=c++17" if f == "-std=c++14" else f for f in BASE_FLAGS]      # the library is C++14; its users may compile it as C++17 (g++'s default)
 ASAN_FLAGS = ["-std=c++14", "-O1", "-g", "-fno-omit-frame-pointer", "-w", "-D" + GUARD, "-DNDEBUG", "-DVH_TOUCH_RESULTS",
               "-fsanitize=address,undefined", "-fno-sanitize-recover=undefined",
               # container annotations + standard-library precondition checks: an access to vector storage beyond size() (e.g. top() of an
@@ -149,6 +150,17 @@ def run_harness(binary, args, timeout=None, env=None):
     r["cmd_wall_s"] = round(time.time() - t0, 3)
     r["stdout_tail"] = p.stdout[-2000:]
     return r
+
+
+def replay_opts(rp, names=("--outiter", "--wmap")):
+    """Options of the row that produced a violation which are not part of the case string (kind of output iterator, kind of
+    weight map): taken from the recorded bound ('<text> :: <harness arguments>') and handed to the replay as they were."""
+    args = str(rp.get("bound", "")).rsplit(" :: ", 1)[-1].split()
+    out = []
+    for n in names:
+        if n in args and args.index(n) + 1 < len(args):
+            out += [n, args[args.index(n) + 1]]
+    return out
 
 
 # ---------------------------------------------------------------- known findings
